@@ -1,5 +1,6 @@
 import PyTrie.Model.Bin
 import PyTrie.Model.BinRaw
+import PyTrie.Model.BranchRaw
 import PyTrie.Model.Keccak
 /-! Line-protocol front end for the binary trie and the branch helpers (`bin.*`). All tries of a
     session share one database, as BinaryTrie objects sharing one dict do. -/
@@ -34,6 +35,15 @@ def applySet (st : St) (i : String) (k v : String) (sub : Bool) : St × String :
       | .ok t' => ({ st with db := db', tries := st.tries.set! i t' }, "ok")
       | .error .override => ({ st with db := db' }, "exn NodeOverrideError")
   | _, _, _ => (st, "bad-op")
+
+def fmtRawErr : BranchRaw.Err → String
+  | .keyError _ => "exn KeyError"
+  | .invalidNode => "exn InvalidNode"
+  | .assertion => "exn AssertionError"
+  | .other => "exn Other"
+  | .tooLong => "exn InvalidKeyError"
+  | .tooShort => "exn InvalidKeyError"
+  | .fuel => "exn Fuel"
 
 def step (st : St) (cmd : String) (args : List String) : St × String :=
   let bad := (st, "bad-op")
@@ -93,6 +103,44 @@ def step (st : St) (cmd : String) (args : List String) : St × String :=
         | .invalidNode => "exn InvalidNode"
         | .other => "exn Other")
     | _, _, _, _ => bad
+  -- raw level of `trie/branches.py`: over a root hash and the database as it is now
+  | "rexists", [r, k] =>
+    match ofHex r, ofHex k with
+    | some r, some k =>
+      (st, match BranchRaw.existsD (keccak []) st.db (st.db.length + 8 * k.length + 2) r (toBits k) with
+        | .ok b => if b then "True" else "False"
+        | .error e => fmtRawErr e)
+    | _, _ => bad
+  | "rbranch", [r, k] =>
+    match ofHex r, ofHex k with
+    | some r, some k =>
+      (st, match BranchRaw.getBranchD (keccak []) st.db (st.db.length + 8 * k.length + 2) r (toBits k) with
+        | .ok l => joinOr (l.map toHex) ","
+        | .error e => fmtRawErr e)
+    | _, _ => bad
+  | "rnodes", [r] =>
+    match ofHex r with
+    | some r =>
+      (st, match BranchRaw.trieNodesD st.db (st.db.length + 2) r with
+        | .ok l => joinOr (l.map toHex) ","
+        | .error e => fmtRawErr e)
+    | _ => bad
+  | "rwitness", [r, k] =>
+    match ofHex r, ofHex k with
+    | some r, some k =>
+      (st, match BranchRaw.witnessD st.db (st.db.length + 2) (st.db.length + 8 * k.length + 2) r (toBits k) with
+        | .ok l => joinOr (l.map toHex) ","
+        | .error e => fmtRawErr e)
+    | _, _ => bad
+  -- remove / put back a database entry (partial databases for the raw-level readers)
+  | "dbdel", [h] =>
+    match ofHex h with
+    | some h => ({ st with db := st.db.filter (fun e => !(e.1 == h)) }, "ok")
+    | none => bad
+  | "dbput", [h, b] =>
+    match ofHex h, ofHex b with
+    | some h, some b => ({ st with db := st.db.filter (fun e => !(e.1 == h)) ++ [(h, b)] }, "ok")
+    | _, _ => bad
   | "getat", [r, k] =>
     match ofHex r, ofHex k with
     | some r, some k =>
